@@ -48,7 +48,7 @@ def run(ctx, progs):
         ctx.rule(r, t)
     for cfg, prog in progs.items():
         c04.ctor1(ctx, prog, cfg)
-        shapes.must_match(ctx, "CTOR1", prog, "<CircularBuffer<N, T> as Default>::default", [r"call CircularBuffer::new\(\)", r"return " + NEWV], cfg,
+        shapes.must_match(ctx, "CTOR1", prog, "<CircularBuffer<N, T> as Default>::default", [r"?call CircularBuffer::new\(\)", r"return " + NEWV], cfg,
                           "default() = new()", "Default::default is not CircularBuffer::new()")
         f = prog.fn("CircularBuffer::new")
         if f is not None:
@@ -107,7 +107,7 @@ def clonepath1(ctx, prog, cfg):
         r"call <CircularBuffer<N, T> as Extend<T>>::extend\(self, Iterator::cloned\(CircularBuffer::iter\(other\)\)\)", r"return const"], cfg,
        "clear(); extend(other.iter().cloned())", "`clone_from` is not `self.clear(); self.extend(other.iter().cloned())`: old elements survive or the copy is not element-wise")
     mm(ctx, "CLONEPATH1", prog, "<CircularBuffer<N, T> as FromIterator<T>>::from_iter",
-       [r"call CircularBuffer::new\(\)", r"call core::iter::traits::collect::IntoIterator::into_iter\(iter\)",
+       [r"?call CircularBuffer::new\(\)", r"call core::iter::traits::collect::IntoIterator::into_iter\(iter\)",
         r"call core::iter::traits::iterator::Iterator::for_each\(IntoIterator::into_iter\(iter\), \{closure#0\}::\{0: &\{" + NEWV + r"\}\}\)",
         r"return (" + NEWV + r"|memdef|phi)"], cfg,
        "new(); iter.for_each(push_back)", "`from_iter` does not start from an empty buffer and feed every item to it")
